@@ -5,7 +5,9 @@ let run (check : Sexp.t -> unit) : unit =
   (try
      while true do
        let line = input_line stdin in
-       if String.length line > 0 then begin
+       (* the console visitors of the library (verbose entry points) print whole lines to stdout: not case lines *)
+       if String.length line > 0 && line.[0] <> '(' then Conv.bump "stdout_noise_lines"
+       else if String.length line > 0 then begin
          (try
             (match Sexp.parse line with
              | Sexp.List (Sexp.Atom "case" :: Sexp.Atom id :: Sexp.Atom "crashed" :: rest) ->
